@@ -61,6 +61,7 @@ class Sim:
         self.sleep_overshoot = None  # callable(ns) -> extra ns
         self.counters = {}
         self.step_limited = False
+        self.recv_cost_ns = 0  # "slow node": virtual time spent by the client per received datagram
 
     # ---- counters / probes
     def count(self, key, n=1):
@@ -157,6 +158,9 @@ class Sim:
                 return None
             d = ep.queue.pop(0)
             self.log("rx", ep.idx, self.now, d.id)
+            if self.recv_cost_ns:
+                self.count("fault.slow-client")
+                self.run_until(self.now + self.recv_cost_ns)
             if d.errno is not None:
                 raise OSError(d.errno, "injected recv error")
             return d.data
